@@ -11,9 +11,9 @@ import (
 
 func init() {
 	register(&Rule{
-		ID: "C10",
+		ID:      "C10",
 		Explain: "Decides writer/reader agreement of the snapshot file, not a replay of a history: every line format written (append path and compaction) selects, under the reader's first-match prefix chain, the branch of the same record kind; verbs agree with parses (%d of a 64-bit unsigned ↔ ParseUint base 10/64 bits; two %s ↔ split at the LAST separator with key before / value after); the state field a record restores is the field whose change caused it to be written; every state field replay restores is serialised by compaction with the same formats (so compacted and uncompacted files replay equal); in-memory state is updated before the append (a compaction inside the append contains the event); Create witnesses the three restored clocks into the matching clocks and rejoins AliveNodes(). Line discipline: every %s argument must be newline-free by construction — the member name is not (known finding). Value equality of what is replayed and 'snapshot keeps up' are not decided.",
-		Run: runC10,
+		Run:     runC10,
 		Mutants: []Mutant{
 			{Name: "writer-renames-record", File: "serf/snapshot.go", Func: "func (s *Snapshotter) processQuery(", Old: "\"query-clock: %d\\n\"", New: "\"queryclock: %d\\n\"", Expect: "R1"},
 			{Name: "reader-shadowed-by-earlier-prefix", File: "serf/snapshot.go", Func: "func (s *Snapshotter) replay(", Old: "strings.CutPrefix(line, \"clock: \")", New: "strings.CutPrefix(line, \"\")", Expect: "R1"},
